@@ -168,7 +168,7 @@ fn max_id(m: &dr::Module) -> u32 {
 }
 
 /// One random complete Builder history; returns the finished module and a textual log.
-fn history(rng: &mut Rng, r: &mut Report, rp: &dyn Fn() -> Json, cover: usize) -> Option<(dr::Module, Vec<String>, Option<(u8, u8)>)> {
+pub fn history(rng: &mut Rng, r: &mut Report, rp: &dyn Fn() -> Json, cover: usize) -> Option<(dr::Module, Vec<String>, Option<(u8, u8)>)> {
     let sems = method_sems();
     let mut b = Builder::new();
     let mut log: Vec<String> = vec![];
